@@ -39,6 +39,8 @@ func (a Action) String() string {
 		return fmt.Sprintf("+%dms", a.N)
 	case "tick":
 		return fmt.Sprintf("tick(db%d)", a.N)
+	case "embsel":
+		return fmt.Sprintf("emb:SelectDB(%d)", a.N)
 	}
 	return a.K
 }
@@ -204,6 +206,8 @@ func (w *World) Do(a Action) StepOut {
 		}
 		return o
 	case "snap":
+		// two snapshots never share a millisecond on a real clock (the snapshot directory is named after it)
+		verifrt.Advance(time.Millisecond, nil)
 		err, p, h := w.in.Call(func() error { return w.in.db.VerifTakeSnapshot() })
 		o := StepOut{Empty: true, Panic: p, Hang: h}
 		if err != nil {
@@ -217,6 +221,23 @@ func (w *World) Do(a Action) StepOut {
 			o.Err = err.Error()
 		}
 		return o
+	case "embsel":
+		err, p, h := w.in.Call(func() error { return w.in.db.SelectDB(int(a.N)) })
+		o := StepOut{Empty: true, Panic: p, Hang: h}
+		if err != nil {
+			o.Err = err.Error()
+		}
+		return o
+	case "snap-restart":
+		o := w.Do(Action{K: "snap"})
+		if o.Panic != "" || o.Hang {
+			return o
+		}
+		o2 := w.Do(Action{K: "restart"})
+		if o.Err != "" && o2.Err == "" {
+			o2.Err = "snapshot: " + o.Err
+		}
+		return o2
 	case "restart":
 		// clean stop, then a new instance on the same file system with restore enabled per cfg
 		w.in.Shutdown()
